@@ -181,4 +181,207 @@ example : (fetchOrCreate (.tag 0 "" "r" [] [.tag 1 "" "a" [] []]) 2 [("", "")] [
           preds := [.binop "=" (.attrVal none "k".toList) (.str "v".toList)] }] }]).toOption.map (·.2.1)
     = some (.at [0, 0]) := by rfl
 
+/-! ## what is added: the minimal missing branch below the deepest existing match
+
+Vocabulary (`DelbModel/Lemmas/Create/Minimal.lean`): `AddedBelow root root' d i B` - `root'` is `root` with the
+one subtree `B` put among the children of the tag node at `d`, at the index `i` where `append_children`
+puts a node; `IsChainKids n k ks` - the child list `ks` is a branch without ramification of `k` tag nodes
+with the identities `n`, `n+1`, …; `ChainFits envC ss ks` - that branch has one node per step of `ss`,
+each with the name, namespace and attributes the step asks for (`StepNode`); `startOf ctx p` - the node
+the path is evaluated from.  "The call created something" is `n' ≠ n`: identities were used up (with one
+mapping for query and creation that is the case whenever the query found nothing,
+`c15_not_found_creates`).  The loop evaluates with the mapping `envC`, so the matches are stated for it. -/
+
+/-- when query and creation use the same mapping, a successful call that found nothing created something -/
+theorem c15_not_found_creates (root root' : PTree) (n n' : Nat) (env : NsEnv) (ctx : List Nat) (p : Path)
+    (r : XNode) (hq : evaluate root env ctx [p] = .ok [])
+    (h : fetchOrCreate root n env env ctx [p] = .ok (root', r, n')) : n' ≠ n :=
+  fetchOrCreate_not_found_creates root root' n n' env ctx p r hq h
+
+/-- all of it under one existential, so that the three statements below speak of the same place `d`,
+    index `i`, subtree `B` and number `m` of leading steps that had a match -/
+theorem c15_added_branch (root root' : PTree) (n n' : Nat) (envQ envC : NsEnv) (ctx : List Nat) (p : Path)
+    (r : XNode) (h : fetchOrCreate root n envQ envC ctx [p] = .ok (root', r, n')) (hcr : n' ≠ n) :
+    ∃ d i B m, AddedBelow root root' d i B ∧ m < p.steps.length ∧ n' = n + (p.steps.length - m) ∧
+      IsChainKids n (p.steps.length - m) [B] ∧ ChainFits envC (p.steps.drop m) [B] ∧
+      r = .at (d ++ i :: List.replicate (p.steps.length - m - 1) 0) ∧
+      (∀ x, x ∈ Clone.idsOf root' ↔ x ∈ Clone.idsOf root ∨ (n ≤ x ∧ x < n')) ∧
+      (∀ j, j ≤ m → ∃ c, evalSteps root envC (p.steps.take j) [startOf ctx p] = .ok [c]) ∧
+      evalSteps root envC (p.steps.take m) [startOf ctx p] = .ok [.at d] ∧
+      (∀ s, p.steps[m]? = some s → evalStep root envC s [] [.at d] = .ok []) ∧
+      (∀ j, m < j → evalSteps root envC (p.steps.take j) [startOf ctx p] = .ok []) :=
+  fetchOrCreate_branch root root' n n' envQ envC ctx p r h hcr
+
+/-- what a creating call adds is a single chain: the new tree is the old one with one subtree `B` put
+    among the children of an existing tag node `d`; `B` is a branch without ramification of `n' - n` tag
+    nodes with the identities `n`, …, `n' - 1` (the first is the new child of `d`, every further one the
+    only child of the previous one, the last has no children - so no text, comment or processing
+    instruction node is added); the returned node is the last node of the chain; and the identities of the
+    new tree are the old ones and `n`, …, `n' - 1`, nothing else -/
+theorem c15_added_is_one_chain (root root' : PTree) (n n' : Nat) (envQ envC : NsEnv) (ctx : List Nat) (p : Path)
+    (r : XNode) (h : fetchOrCreate root n envQ envC ctx [p] = .ok (root', r, n')) (hcr : n' ≠ n) :
+    ∃ d i B, AddedBelow root root' d i B ∧ n < n' ∧ IsChainKids n (n' - n) [B] ∧
+      r = .at (d ++ i :: List.replicate (n' - n - 1) 0) ∧
+      (∀ x, x ∈ Clone.idsOf root' ↔ x ∈ Clone.idsOf root ∨ (n ≤ x ∧ x < n')) := by
+  obtain ⟨d, i, B, m, h1, h2, h3, h4, _, h6, h7, _⟩ := fetchOrCreate_branch root root' n n' envQ envC ctx p r h hcr
+  have e : n' - n = p.steps.length - m := by omega
+  exact ⟨d, i, B, h1, by omega, by rw [e]; exact h4, by rw [e]; exact h6, h7⟩
+
+/-- where below `d` the chain is put: at the index `append_children` inserts at, i.e. directly behind the
+    last tag or text child of `d` - everything behind it is a comment or a processing instruction - and at
+    the very end when `d` has no tag or text child.  In particular it is the last child whenever the last
+    child of `d` is a tag or text node (or `d` has no children).  It is NOT always the last child: see the
+    example below. -/
+theorem c15_added_position (root root' : PTree) (d : List Nat) (i : Nat) (B : PTree)
+    (h : AddedBelow root root' d i B) :
+    ∃ t, getAtP root d = some t ∧ i ≤ t.kids.length ∧
+      (∀ y ∈ t.kids.drop i, y.isTag = false ∧ y.isText = false) ∧
+      (i = t.kids.length ∨ ∃ x, 0 < i ∧ t.kids[i - 1]? = some x ∧ (x.isTag || x.isText) = true) ∧
+      ((∀ x, t.kids.getLast? = some x → (x.isTag || x.isText) = true) → i = t.kids.length) := by
+  obtain ⟨id, ns, nm, a, ks, hg, rfl, _, _⟩ := h
+  obtain ⟨h1, h2, h3⟩ := appendIndex_spec ks
+  refine ⟨_, hg, h1, h2, h3, fun hlast => ?_⟩
+  simp only [PTree.kids] at *
+  rcases Nat.lt_or_ge (appendIndex ks) ks.length with hlt | hge
+  · exfalso
+    have hne : ks.drop (appendIndex ks) ≠ [] := by
+      intro e
+      have := congrArg List.length e
+      simp at this
+      omega
+    have hmem := List.getLast_mem hne
+    have hl : ks.getLast? = some ((ks.drop (appendIndex ks)).getLast hne) := by
+      rw [← List.getLast?_eq_some_getLast hne, List.getLast?_drop, if_neg (by omega)]
+    have := hlast _ hl
+    have := h2 _ hmem
+    simp_all
+  · omega
+
+/-- the chain is as short as it can be: `m` leading steps had a match - each prefix of at most `m` steps
+    selects exactly one node of the old tree, the one of length `m` selects `d` - the next step selects
+    nothing below `d`, no longer prefix selects anything, and the chain put below `d` has one node per
+    remaining step: `n' - n = #steps - m` nodes -/
+theorem c15_added_count_minimal (root root' : PTree) (n n' : Nat) (envQ envC : NsEnv) (ctx : List Nat) (p : Path)
+    (r : XNode) (h : fetchOrCreate root n envQ envC ctx [p] = .ok (root', r, n')) (hcr : n' ≠ n) :
+    ∃ d i B m, AddedBelow root root' d i B ∧ m < p.steps.length ∧ n' - n = p.steps.length - m ∧
+      IsChainKids n (p.steps.length - m) [B] ∧
+      (∀ j, j ≤ m → ∃ c, evalSteps root envC (p.steps.take j) [startOf ctx p] = .ok [c]) ∧
+      evalSteps root envC (p.steps.take m) [startOf ctx p] = .ok [.at d] ∧
+      (∀ s, p.steps[m]? = some s → evalStep root envC s [] [.at d] = .ok []) ∧
+      (∀ j, m < j → evalSteps root envC (p.steps.take j) [startOf ctx p] = .ok []) := by
+  obtain ⟨d, i, B, m, h1, h2, h3, h4, _, _, _, h8, h9, h10, h11⟩ :=
+    fetchOrCreate_branch root root' n n' envQ envC ctx p r h hcr
+  exact ⟨d, i, B, m, h1, h2, by omega, h4, h8, h9, h10, h11⟩
+
+/-- the nodes of the chain, top-down, belong to the steps that had no match, in order: the `k`-th has the
+    local name of the `k`-th missing step, the namespace its prefix stands for in `envC` (no prefix: the
+    default namespace of `envC`; none declared: no namespace), and as attributes exactly those derived from
+    the step's predicates with their prefixes resolved in `envC` (`StepNode`: none besides them, no
+    expanded name twice, each derived expanded name present, with the derived value when the step's
+    equalities are consistent); and it has no child besides the next node of the chain -/
+theorem c15_added_names_and_attributes (root root' : PTree) (n n' : Nat) (envQ envC : NsEnv) (ctx : List Nat)
+    (p : Path) (r : XNode) (h : fetchOrCreate root n envQ envC ctx [p] = .ok (root', r, n')) (hcr : n' ≠ n) :
+    ∃ d i B m, AddedBelow root root' d i B ∧ m < p.steps.length ∧ n' - n = p.steps.length - m ∧
+      ChainFits envC (p.steps.drop m) [B] := by
+  obtain ⟨d, i, B, m, h1, h2, h3, _, h5, _⟩ := fetchOrCreate_branch root root' n n' envQ envC ctx p r h hcr
+  exact ⟨d, i, B, m, h1, h2, by omega, h5⟩
+
+/-- non-vacuity, two nodes below an existing match: `a/b[@k="v"]/c` at `<r><a><x/></a><!--c--></r>` (identities
+    0-3, next one 4).  `a` exists, so `m = 1`, `d = [0]`; the chain `<b k="v"><c/></b>` (identities 4, 5) is
+    put behind `<x/>`; the last node of the chain is returned; the hypotheses of the theorems above hold by
+    `rfl` / `decide`. -/
+example :
+    let root : PTree := .tag 0 "" "r" [] [.tag 1 "" "a" [] [.tag 2 "" "x" [] []], .comment 3 "c".toList]
+    let p : Path := { absolute := false, steps := [
+        { axis := "child", test := .name none "a".toList, preds := [] },
+        { axis := "child", test := .name none "b".toList,
+          preds := [.binop "=" (.attrVal none "k".toList) (.str "v".toList)] },
+        { axis := "child", test := .name none "c".toList, preds := [] }] }
+    let env : NsEnv := [("", "")]
+    let B : PTree := .tag 4 "" "b" [{ ns := "", name := "k", value := "v".toList }] [.tag 5 "" "c" [] []]
+    let root' : PTree := .tag 0 "" "r" [] [.tag 1 "" "a" [] [.tag 2 "" "x" [] [], B], .comment 3 "c".toList]
+    fetchOrCreate root 4 env env [] [p] = .ok (root', .at [0, 1, 0], 6) ∧ (6 ≠ 4) ∧
+      -- `c15_added_is_one_chain`
+      AddedBelow root root' [0] 1 B ∧ IsChainKids 4 (6 - 4) [B] ∧
+      XNode.at [0, 1, 0] = .at ([0] ++ 1 :: List.replicate (6 - 4 - 1) 0) ∧
+      -- `c15_added_count_minimal` with `m = 1`
+      6 - 4 = p.steps.length - 1 ∧
+      evalSteps root env (p.steps.take 0) [startOf [] p] = .ok [.at []] ∧
+      evalSteps root env (p.steps.take 1) [startOf [] p] = .ok [.at [0]] ∧
+      evalSteps root env (p.steps.take 2) [startOf [] p] = .ok [] ∧
+      evalSteps root env (p.steps.take 3) [startOf [] p] = .ok [] ∧
+      -- `c15_added_names_and_attributes`
+      ChainFits env (p.steps.drop 1) [B] := by
+  intro root p env B root'
+  refine ⟨rfl, by decide, ⟨1, "", "a", [], [.tag 2 "" "x" [] []], rfl, rfl, rfl, rfl⟩,
+    ⟨_, _, _, _, rfl, _, _, _, _, rfl, rfl⟩, rfl, rfl, rfl, rfl, rfl, rfl, ?_⟩
+  have hb : stepAttrs ⟨"child", .name none "b".toList, [.binop "=" (.attrVal none "k".toList) (.str "v".toList)]⟩ =
+      [([], "k".toList, "v".toList)] := rfl
+  have hc : stepAttrs ⟨"child", .name none "c".toList, []⟩ = [] := rfl
+  refine ⟨4, "", "b", _, _, rfl, ⟨⟨none, _, rfl, by decide, rfl⟩, ?_, by decide, ?_, ?_⟩,
+    5, "", "c", [], [], rfl, ⟨⟨none, _, rfl, by decide, rfl⟩, ?_, by decide, ?_, ?_⟩, rfl⟩
+  · intro a ha
+    rw [List.mem_singleton] at ha
+    exact ⟨([], "k".toList, "v".toList), by rw [hb]; exact List.mem_singleton.2 rfl, ha⟩
+  · intro t ht
+    rw [hb, List.mem_singleton] at ht
+    subst ht
+    exact ⟨_, List.mem_singleton.2 rfl, rfl, rfl⟩
+  · intro _ t ht
+    rw [hb, List.mem_singleton] at ht
+    subst ht
+    exact List.mem_singleton.2 rfl
+  · intro a ha; cases ha
+  · intro t ht; rw [hc] at ht; cases ht
+  · intro _ t ht; rw [hc] at ht; cases ht
+
+/-- the same call fed to the three theorems: their hypotheses are met by `rfl` and `decide` -/
+example :
+    let root : PTree := .tag 0 "" "r" [] [.tag 1 "" "a" [] [.tag 2 "" "x" [] []], .comment 3 "c".toList]
+    let p : Path := { absolute := false, steps := [
+        { axis := "child", test := .name none "a".toList, preds := [] },
+        { axis := "child", test := .name none "b".toList,
+          preds := [.binop "=" (.attrVal none "k".toList) (.str "v".toList)] },
+        { axis := "child", test := .name none "c".toList, preds := [] }] }
+    let env : NsEnv := [("", "")]
+    let B : PTree := .tag 4 "" "b" [{ ns := "", name := "k", value := "v".toList }] [.tag 5 "" "c" [] []]
+    let root' : PTree := .tag 0 "" "r" [] [.tag 1 "" "a" [] [.tag 2 "" "x" [] [], B], .comment 3 "c".toList]
+    (∃ d i B, AddedBelow root root' d i B ∧ 4 < 6 ∧ IsChainKids 4 (6 - 4) [B] ∧
+      XNode.at [0, 1, 0] = .at (d ++ i :: List.replicate (6 - 4 - 1) 0) ∧
+      (∀ x, x ∈ Clone.idsOf root' ↔ x ∈ Clone.idsOf root ∨ (4 ≤ x ∧ x < 6))) ∧
+    (∃ d i B m, AddedBelow root root' d i B ∧ m < p.steps.length ∧ 6 - 4 = p.steps.length - m ∧
+      ChainFits env (p.steps.drop m) [B]) := by
+  intro root p env B root'
+  exact ⟨c15_added_is_one_chain root root' 4 6 env env [] p (.at [0, 1, 0]) rfl (by decide),
+    c15_added_names_and_attributes root root' 4 6 env env [] p (.at [0, 1, 0]) rfl (by decide)⟩
+
+/-- "appended as the last child" is FALSE in general: `append_children` goes by the last child the default
+    filter shows (`last_child`: tag and text nodes) and adds the node directly behind it.  `b/c` at
+    `<r><a/><!--c--></r>` gives `<r><a/><b><c/></b><!--c--></r>`: the chain sits at index 1 of 3, in front
+    of the comment.  (Behind every tag and text child, as `c15_added_position` says.) -/
+example :
+    let root : PTree := .tag 0 "" "r" [] [.tag 1 "" "a" [] [], .comment 2 "c".toList]
+    let p : Path := { absolute := false, steps := [
+        { axis := "child", test := .name none "b".toList, preds := [] },
+        { axis := "child", test := .name none "c".toList, preds := [] }] }
+    let B : PTree := .tag 3 "" "b" [] [.tag 4 "" "c" [] []]
+    let root' : PTree := .tag 0 "" "r" [] [.tag 1 "" "a" [] [], B, .comment 2 "c".toList]
+    fetchOrCreate root 3 [("", "")] [("", "")] [] [p] = .ok (root', .at [1, 0], 5) ∧
+      AddedBelow root root' [] 1 B ∧ root'.kids.length = 3 := by
+  exact ⟨rfl, ⟨0, "", "r", [], _, rfl, rfl, rfl, rfl⟩, rfl⟩
+
+/-- namespaces: with `{"": "d", "x": "u"}`, `x:a[@x:k="v"]/b` at `<r/>` makes `<{u}a {u}k="v"><{d}b/></{u}a>` - the
+    prefixed names in the namespace of the prefix, the unprefixed one in the default namespace of the
+    mapping -/
+example :
+    let p : Path := { absolute := false, steps := [
+        { axis := "child", test := .name (some "x".toList) "a".toList,
+          preds := [.binop "=" (.attrVal (some "x".toList) "k".toList) (.str "v".toList)] },
+        { axis := "child", test := .name none "b".toList, preds := [] }] }
+    let env : NsEnv := [("", "d"), ("x", "u")]
+    fetchOrCreate (.tag 0 "" "r" [] []) 1 env env [] [p] =
+      .ok (.tag 0 "" "r" [] [.tag 1 "u" "a" [{ ns := "u", name := "k", value := "v".toList }] [.tag 2 "d" "b" [] []]],
+        .at [0, 0], 3) := by
+  rfl
+
 end Delb.XPath
